@@ -230,3 +230,60 @@ Definition run_nv_float (t : fty) (input : list N) (ops : list (@bop spec_float)
   | Val (IErr e :: _) => "L" ++ show_Z e
   | _ => "N"
   end.
+
+(* ---- kind enum (C20): derived enums ---- *)
+From VF Require Import Enum.
+Definition show_optnat (o : option nat) : string := match o with Some i => "V" ++ show_nat i | None => "N" end.
+(* candidate: from_mnemonic, and TryFrom of the first token of the lexed candidate *)
+Definition run_enum (defs : enum_def) (cand : list N) : string :=
+  show_optnat (from_mnemonic defs cand) ++ " " ++
+  match tokenize_params cand with
+  | Val (IOk t :: _) => if is_data t then match enum_try_from defs t with Ok i => "V" ++ show_nat i | Err e => "E" ++ show_Z e end else "N"
+  | Val (IErr e :: _) => "L" ++ show_Z e
+  | _ => "N"
+  end.
+(* per variant: mnemonic, short form, response text and the variant the response text selects *)
+Definition run_enumv (defs : enum_def) : string :=
+  join ";" (map (fun m => show_bytes m ++ "," ++ show_bytes (short_form m) ++ "," ++ show_bytes (enum_response m) ++ ","
+                          ++ show_optnat (from_mnemonic defs (enum_response m))) defs).
+
+(* ---- kinds nlist / clist (C19, C01) ---- *)
+From VF Require Import Lists.
+Definition show_litem {E} (f : E -> string) (i : litem E) : string :=
+  match i with IEntry e => f e | IError e => show_error e end.
+Definition show_nentry (e : nentry) : string :=
+  match e with NNum s => "n" ++ show_bytes s | NRange a b => "r" ++ show_bytes a ++ ":" ++ show_bytes b end.
+Definition run_nlist (expr : list N) : string :=
+  match nlist_entries expr with
+  | Panic s => "PANIC " ++ s
+  | Val [] => "-"
+  | Val l => join " " (map (show_litem show_nentry) l)
+  end.
+Definition show_tuple (r : outcome (res (list Z))) : string :=
+  match r with
+  | Panic s => "PANIC " ++ s
+  | Val (Ok zs) => join "_" (map show_Z zs)
+  | Val (Err e) => "E" ++ show_Z e
+  end.
+Definition show_spec (s : cspec) : string :=
+  show_nat (sp_dim s) ++ "/" ++
+  (match spec_values (sp_text s) with
+   | Panic m => "PANIC " ++ m
+   | Val [] => "-"
+   | Val ds => join "!" (map (fun d => match d with Some z => show_Z z | None => "E" ++ show_Z ExpressionError end) ds)
+   end)
+  ++ "/" ++ show_tuple (spec_to_tuple 1 s) ++ "/" ++ show_tuple (spec_to_tuple 2 s) ++ "/" ++ show_tuple (spec_to_tuple 3 s)
+  ++ "/" ++ show_tuple (spec_to_utuple 1 s) ++ "/" ++ show_tuple (spec_to_utuple 2 s).
+Definition show_centry (e : centry) : string :=
+  match e with
+  | CSpec s => "s" ++ show_spec s
+  | CRange a b => "r" ++ show_spec a ++ "~" ++ show_spec b
+  | CPath p => "p" ++ show_bytes p
+  end.
+Definition run_clist (expr : list N) : string :=
+  match clist_entries expr with
+  | None => "NONE"
+  | Some (Panic s) => "PANIC " ++ s
+  | Some (Val []) => "-"
+  | Some (Val l) => join " " (map (fun i => match i with IEntry e => show_centry e | IError e => "E" ++ show_Z (ecode e) end) l)
+  end.
